@@ -98,6 +98,16 @@ def load_known() -> List[Dict[str, Any]]:
         return json.load(fh).get("entries", [])
 
 
+def unlisted_findings(ctx: Ctx) -> int:
+    """number of findings that are not recorded known findings (what finish() would report as violations)"""
+    known = [k for k in load_known() if k.get("property") == ctx.prop and k.get("status") == "finding"]
+    n = 0
+    for f in ctx.findings:
+        if not any(k.get("rule") == f.rule and k.get("file") == f.file and k.get("function") == f.function and k.get("construct_contains", "") in f.construct for k in known):
+            n += 1
+    return n
+
+
 def finish(ctx: Ctx, level: str, explanation: str, assumptions: List[str], trusted: List[str]) -> int:
     """Apply known-findings, write replay + evidence files, print verdict lines. Returns exit code."""
     known = [k for k in load_known() if k.get("property") == ctx.prop and k.get("status") == "finding"]
